@@ -10,7 +10,10 @@ namespace ShootVerif.Enum
 structure Input where
   T : Name
   kind : Kind
+  /-- the package-level const blocks -/
   blocks : List (List VSpec)
+  /-- const blocks inside function bodies (legal Go, not declarations of the package) -/
+  locals : List (List VSpec) := []
   deriving Repr
 
 /-! ## the declared constants of T, by the Go language rule -/
@@ -33,6 +36,9 @@ def declared (T : Name) (blocks : List (List VSpec)) : List Const :=
   blocks.flatMap (declaredBlock T none)
 
 def Input.decl (i : Input) : List Const := declared i.T i.blocks
+
+/-- everything makeStr walks over -/
+def Input.allBlocks (i : Input) : List (List VSpec) := i.blocks ++ i.locals
 
 /-! ## C04 -/
 
@@ -63,6 +69,7 @@ def specGuard (decl : List Const) (cur : Name → Option Int) : Bool :=
 
 /-! ### regions of C04 (also the enum-level part of C12 and C14)
 
+* function-local const blocks and specs with a non-identifier type: see `F_local_const`, `F_nonident_type`.
 * grammar (`grammarOK`): the type name is not empty; the kind has 1 to 64 bits; names and values are aligned; no spec gets type T through a typed expression (`X = T(5)`): the property's
   grammar has every constant of T introduced by an explicit `T` or carried down from one.
   Outside ⇒ `Out`.
@@ -77,10 +84,28 @@ def specGuard (decl : List Const) (cur : Name → Option Int) : Bool :=
 -/
 
 def specOK (T : Name) (s : VSpec) : Bool :=
-  s.names.length == s.vals.length && !(s.ty.isNone && s.hasVals && s.exprTy == some T)
+  s.names.length == s.vals.length && !(s.ty.isNone && s.hasVals && s.exprTy == some T) &&
+    (s.tyIdent || (s.ty.isSome && s.ty != some T))
 
+/-- a spec whose type is not a plain identifier is not followed by an empty spec (which would repeat
+    it by the Go rule, but carry the REMEMBERED type in makeStr) -/
+def noCarryAfterNonIdent : List VSpec → Bool
+  | [] => true
+  | [_] => true
+  | s :: s' :: rest =>
+    (s.tyIdent || s.ty.isNone || s'.ty.isSome || s'.hasVals) && noCarryAfterNonIdent (s' :: rest)
+
+/-- the syntactic grammar under which `C04_collect` shows that the loop of makeStr finds exactly the
+    declared constants -/
 def grammarOK (i : Input) : Bool :=
-  !i.T.isEmpty && decide (0 < i.kind.bits) && decide (i.kind.bits ≤ 64) && i.blocks.all (fun b => b.all (specOK i.T))
+  !i.T.isEmpty && decide (0 < i.kind.bits) && decide (i.kind.bits ≤ 64) &&
+    i.blocks.all (fun b => b.all (specOK i.T) && noCarryAfterNonIdent b) &&
+    i.locals.all (fun b => b.all (fun s => specOK i.T s && s.ty != some i.T) && noCarryAfterNonIdent b)
+
+/-- the case is well formed at all (a real package) -/
+def basicOK (i : Input) : Bool :=
+  !i.T.isEmpty && decide (0 < i.kind.bits) && decide (i.kind.bits ≤ 64) &&
+    i.allBlocks.all (fun b => b.all (fun s => s.names.length == s.vals.length))
 
 def nodupOK (T : Name) (decl : List Const) : Bool :=
   decide (decl.map (·.val)).Nodup && decide (decl.map (fun c => trim T c.name)).Nodup &&
@@ -89,12 +114,30 @@ def nodupOK (T : Name) (decl : List Const) : Bool :=
 /-- every declared value is a value of the type (a Go rule: the constant would overflow otherwise) -/
 def valuesInKind (k : Kind) (decl : List Const) : Bool := decl.all (fun c => k.has c.val)
 
+/-- `WF`: the loop of makeStr finds exactly the declared constants (by `C04_collect` the syntactic
+    grammar `grammarOK` is inside), there is at least one, values and trimmed names are distinct and
+    the values are values of the type -/
 def WF (i : Input) : Bool :=
-  grammarOK i && !i.decl.isEmpty && nodupOK i.T i.decl && valuesInKind i.kind i.decl
+  basicOK i && (collect i.T i.allBlocks == i.decl) && !i.decl.isEmpty && nodupOK i.T i.decl &&
+    valuesInKind i.kind i.decl
 
-def Out (i : Input) : Bool := !WF i
+/-- a const declaration inside a function body contributes constants to the tables: legal Go, the
+    enum declaration itself is in the grammar, the output names constants that do not exist at
+    package level ⇒ finding -/
+def F_local_const (i : Input) : Bool :=
+  basicOK i && !(collect i.T i.allBlocks == collect i.T i.blocks)
 
-def region (i : Input) : String := if WF i then "WF" else "Out"
+/-- a spec whose type is not a plain identifier (`Wait time.Duration = 5` followed by an empty spec
+    while T is remembered: constants of another type land in T's tables; `X (T) = 7`: a constant of T
+    is silently left out) ⇒ finding -/
+def F_nonident_type (i : Input) : Bool :=
+  basicOK i && !F_local_const i && !(collect i.T i.blocks == i.decl) &&
+    i.blocks.any (fun b => b.any (fun s => !s.tyIdent))
+
+def Out (i : Input) : Bool := !(WF i || F_local_const i || F_nonident_type i)
+
+def region (i : Input) : String :=
+  if WF i then "WF" else if F_local_const i then "F_local_const" else if F_nonident_type i then "F_nonident_type" else "Out"
 
 /-! ## C12 -/
 
@@ -208,16 +251,19 @@ end Bit
     observed on a copy in which the defined table name is substituted. -/
 def F_undefined_map (bit : Bool) : Bool := bit && !(usedSyms bit).all (definedSyms.contains ·)
 
-def regionBit (i : Input) : String :=
-  if !WF i then "Out"
-  else
-    let ok : Bool := match i.kind.bits with
-      | 8 => Bit.WFt i.kind.signed (Bit.table (w := 8) i.T (specSorted i.decl))
-      | 16 => Bit.WFt i.kind.signed (Bit.table (w := 16) i.T (specSorted i.decl))
-      | 32 => Bit.WFt i.kind.signed (Bit.table (w := 32) i.T (specSorted i.decl))
-      | 64 => Bit.WFt i.kind.signed (Bit.table (w := 64) i.T (specSorted i.decl))
-      | _ => false
-    if ok then "WF" else "Out"
+/-- is the flag table of the property's grammar (single bits, unions of them, optional zero)? -/
+def grammarBit (i : Input) : Bool :=
+  match i.kind.bits with
+  | 8 => Bit.WFt i.kind.signed (Bit.table (w := 8) i.T (specSorted i.decl))
+  | 16 => Bit.WFt i.kind.signed (Bit.table (w := 16) i.T (specSorted i.decl))
+  | 32 => Bit.WFt i.kind.signed (Bit.table (w := 32) i.T (specSorted i.decl))
+  | 64 => Bit.WFt i.kind.signed (Bit.table (w := 64) i.T (specSorted i.decl))
+  | _ => false
+
+/-- every -bit enum that generates is asserted: inside the grammar against the property's statement
+    (`Bit.specString`), outside it (flags that are not single bits, overlapping composites, a flag on
+    the sign bit) against the exact general statement (`Bit.specGeneral`) -/
+def regionBit (i : Input) : String := if WF i then "WF" else "Out"
 
 /-! ## C01 leg of the enum area: does a `shoot enum` run over a package yield compiling Go?
 
@@ -228,6 +274,8 @@ int32, uint32).  The classes are those of C04 / C14, read off what the generator
 * `-gorm` without `-sql` is a usage error ⇒ `Out`; a malformed case or a run that writes nothing
   (no selected type has a constant) ⇒ `Out`;
 * `-bit` ⇒ `F_enumBitMap` (undefined `_<t>_map`);
+* a table naming a function-local constant or a constant of another type (a spec with a
+  non-identifier type, see C04) ⇒ `F_enumForeignConst`;
 * two constants with the same value or the same trimmed name ⇒ `F_enumDupKey` (duplicate map keys);
 * otherwise `WF`: exit 0, header, gofmt-clean, same package, compiles.
 -/
@@ -238,11 +286,17 @@ structure PkgCase where
   gorm : Bool
   /-- the types the run generates for, with their kinds -/
   types : List (Name × Kind)
+  /-- package-level const blocks, and those inside function bodies -/
   blocks : List (List VSpec)
+  locals : List (List VSpec) := []
   wellFormed : Bool
 
 def PkgCase.tablesOf (p : PkgCase) : List (Name × List Const) :=
-  (p.types.map (fun t => (t.1, sortC t.2 (collect t.1 p.blocks)))).filter (fun e => !e.2.isEmpty)
+  (p.types.map (fun t => (t.1, sortC t.2 (collect t.1 (p.blocks ++ p.locals))))).filter (fun e => !e.2.isEmpty)
+
+/-- some table names a constant that is not a package-level constant of the type -/
+def PkgCase.hasForeign (p : PkgCase) : Bool :=
+  p.tablesOf.any (fun e => !e.2.all (fun c => (declared e.1 p.blocks).contains c))
 
 def PkgCase.hasDup (p : PkgCase) : Bool :=
   p.tablesOf.any (fun e => !(decide (valuesT e.2).Nodup && decide (stringsT e.1 e.2).Nodup))
@@ -250,12 +304,13 @@ def PkgCase.hasDup (p : PkgCase) : Bool :=
 def c01Region (p : PkgCase) : String :=
   if !p.wellFormed || (p.gorm && !p.sql) || p.tablesOf.isEmpty then "Out"
   else if p.bit then "F_enumBitMap"
+  else if p.hasForeign then "F_enumForeignConst"
   else if p.hasDup then "F_enumDupKey"
   else "WF"
 
 /-- what the model of the generator predicts for the run: (exit code, something written, compiles) -/
 def c01Model (p : PkgCase) : Nat × Bool × Bool :=
   if p.gorm && !p.sql then (1, false, false)
-  else (0, !p.tablesOf.isEmpty, p.tablesOf.all (fun e => compiles p.bit e.1 e.2))
+  else (0, !p.tablesOf.isEmpty, p.tablesOf.all (fun e => compiles p.bit e.1 (declared e.1 p.blocks) e.2))
 
 end ShootVerif.Enum
